@@ -238,6 +238,7 @@ def R2_close(run):
             if mentions(at.term, lambda s: s[0] == "call" and s[1].endswith("is_locked_position")) and "OperationNotAllowedOnLockedPosition" in _codes(at):
                 ok = at.true_fail and eb and all(A.guarded_by(h, at, b) for b in eb)
         run.check("R2", "locked-refused@" + hp, ok, "%s does not refuse locked positions before closing" % hp, loc=h.loc(), detail="is_locked => OperationNotAllowedOnLockedPosition")
+    LOCKED_TESTS = ("pino_is_locked_position", "MemoryMappedTokenAccount::is_frozen")
     must_refuse = ["decrease_liquidity", "decrease_liquidity_v2", "reposition_liquidity_v2"]
     must_not = ["increase_liquidity", "increase_liquidity_v2", "increase_liquidity_by_token_amounts_v2"]
     for name in must_refuse + must_not:
@@ -247,14 +248,15 @@ def R2_close(run):
                                                                                           "pino_transfer_from_vault_to_owner", "pino_transfer_from_vault_to_owner_v2")]
         found = None
         for at in A.atoms(h):
-            if mentions(at.term, lambda s: s[0] == "call" and s[1].endswith("pino_is_locked_position")) and "OperationNotAllowedOnLockedPosition" in _codes(at):
+            # (the one-line predicate, or the frozen test it consists of written in place)
+            if mentions(at.term, lambda s: s[0] == "call" and s[1].endswith(LOCKED_TESTS)) and "OperationNotAllowedOnLockedPosition" in _codes(at):
                 found = at
         if name in must_refuse:
             ok = found is not None and found.true_fail and eb and all(A.guarded_by(h, found, b) for b in eb)
             if ok:
                 # applied to the position token account slot
                 pv = prov_of(h)
-                c = [s for s in subterms(found.term) if s[0] == "call" and s[1].endswith("pino_is_locked_position")][0]
+                c = [s for s in subterms(found.term) if s[0] == "call" and s[1].endswith(LOCKED_TESTS)][0]
                 a = pino.canon(h, c[2][0])
                 ok = a[0] == "acct" and "position_token_account" in a[1]
             run.check("R2", "locked-refused@" + name, ok, "pinocchio %s does not refuse a locked (frozen) position before its effects" % name, loc=h.loc(),
